@@ -222,13 +222,17 @@ Lemma cpd_loop_spec : forall parents w dir r,
                         /\ has_reserved parents = false /\ forallb valid_name parents = true
   | Done None w' => exists q, is_strict_prefix dir q = true /\ is_prefix q (dir ++ parents) = true
                               /\ is_leaf (lookup (w_fs w') q) = true
-  | Fail _ _ => True
+  | Fail EInvalid _ => forallb valid_name parents = false
+  | Fail EReserved _ => has_reserved parents = true
+  | Fail _ _ => False
   end.
 Proof.
   induction parents as [|c rest IH]; intros w dir r H [Hwf Hs] Hd Hnr.
   - cbn in H. subst r. cbn. rewrite app_nil_r. splits; auto using made_dirs_refl.
   - cbn in H. destruct (valid_name c) eqn:Hv; cbn in H.
-    2:{ subst r. cbn. splits; auto using made_dirs_refl. }
+    2:{ subst r. cbn. rewrite Hv. splits; auto using made_dirs_refl. }
+    assert (Hrsv : is_reserved c = true -> has_reserved (c :: rest) = true).
+    { intros Hx. unfold WcC.has_reserved. cbn. now rewrite Hx. }
     destruct (p_create_dir w (dir ++ [c])) as [r1 w1] eqn:E1.
     apply p_create_dir_spec in E1 as [Htr1 Hc]. rewrite safe_snoc, Hd in *.
     assert (Hs1 : all_safe w1) by (eapply all_safe_cons; eauto).
@@ -274,6 +278,9 @@ Proof.
               unfold WcC.has_reserved in *. cbn. now rewrite Hres.
            ++ destruct Hpost as [q [A [B C]]]. exists q. splits; auto.
               eapply is_strict_prefix_trans_r; [|exact A]. apply is_prefix_app.
+           ++ destruct e; try contradiction.
+                { unfold WcC.has_reserved in *. cbn [existsb]. rewrite Hpost. apply Bool.orb_true_r. }
+                { cbn [forallb]. rewrite Hv, Hpost. reflexivity. }
     + (* something is there already *)
       destruct (p_lstat w1 (dir ++ [c])) as [m w2] eqn:E2.
       apply p_lstat_spec in E2 as [Htr2 [Hfs2 Hm]]. rewrite Hfs1, safe_snoc, Hd in *.
@@ -302,6 +309,9 @@ Proof.
                  unfold WcC.has_reserved in *. cbn. now rewrite Hres.
               ** destruct Hpost as [q [A [B C]]]. exists q. splits; auto.
                  eapply is_strict_prefix_trans_r; [|exact A]. apply is_prefix_app.
+              ** destruct e; try contradiction.
+                { unfold WcC.has_reserved in *. cbn [existsb]. rewrite Hpost. apply Bool.orb_true_r. }
+                { cbn [forallb]. rewrite Hv, Hpost. reflexivity. }
 Qed.
 
 
@@ -323,7 +333,9 @@ Lemma create_parent_dirs_spec : forall w base rel r,
   | Done None w' => exists q, is_strict_prefix base q = true
                               /\ is_prefix q (base ++ removelast rel) = true
                               /\ is_leaf (lookup (w_fs w') q) = true
-  | Fail _ _ => True
+  | Fail EInvalid _ => forallb valid_name rel = false
+  | Fail EReserved _ => has_reserved (removelast rel) = true
+  | Fail _ _ => False
   end.
 Proof.
   unfold WcC.create_parent_dirs. intros w base rel r H Hrel Hg Hd Hnr.
@@ -335,8 +347,10 @@ Proof.
       * now rewrite parent_snoc.
       * rewrite <- (removelast_last_app rel Hrel), forallb_snoc, C, Hv. reflexivity.
     + splits; auto.
+      rewrite <- (removelast_last_app rel Hrel), forallb_snoc, C, Hv. reflexivity.
   - subst r. cbn. splits; auto.
-  - subst r. cbn. splits; auto.
+  - subst r. cbn. splits; auto. destruct er; auto.
+    rewrite <- (removelast_last_app rel Hrel), forallb_snoc, Hpost. reflexivity.
 Qed.
 
 (** ** remove_old_file, can_create_new_file, write_file, write_symlink *)
@@ -361,7 +375,7 @@ Lemma remove_old_file_spec : forall w p r,
                        (lookup (w_fs w) p = Some EDir /\ is_reserved (last p "") = false))
   | Fail EReserved w' => w_fs w' = w_fs w /\ lookup (w_fs w) p <> None
                          /\ is_reserved (last p "") = true
-  | Fail _ w' => w_fs w' = w_fs w
+  | Fail _ _ => False
   end.
 Proof.
   unfold WcC.remove_old_file. intros w p r H Hp [Hwf Hs] Hd.
@@ -397,7 +411,7 @@ Lemma can_create_new_file_spec : forall w p r,
   | Done true _ => lookup (w_fs w) p = None /\ is_reserved (last p "") = false
   | Done false _ => lookup (w_fs w) p <> None /\ is_reserved (last p "") = false
   | Fail EReserved _ => is_reserved (last p "") = true
-  | Fail _ _ => True
+  | Fail _ _ => False
   end.
 Proof.
   unfold WcC.can_create_new_file. intros w p r H Hp [Hwf Hs] Hd.
